@@ -1,5 +1,6 @@
 """C05 — field parsers accept exactly their documented SWIFT format."""
 from .common import Report
+from . import accept
 from . import fieldfmt, numdate
 from .fieldtab import FieldTab
 
@@ -24,4 +25,5 @@ def run(F, tier):
     # C05 keeps only the component-validation part of T2 (text-typed date components)
     rep.findings = [f for f in rep.findings if not (f.rule == "T2" and not f.instance.startswith("text-date"))]
     rep.sample({"U1": "char predicate call sites in the closure of parsers", "count": rep.rules["U1"]["instances"]})
+    accept.u6(rep, F)
     return rep
